@@ -115,9 +115,34 @@ class SlotModel:
     def defs(self, n: ast.Name) -> frozenset:
         return frozenset(id(d) for d in self.S.rd.defs_reaching(n))
 
-    def same_sequence(self, listname: str, x: ast.AST) -> bool:
+    def _same_core(self, listname: str, x: ast.AST) -> bool:
         kind, seq, seqdefs = self.lists[listname]
         return isinstance(x, ast.Name) and isinstance(seq, ast.Name) and x.id == seq.id and self.defs(x) == seqdefs
+
+    def same_sequence(self, listname: str, x: ast.AST, depth=0) -> bool:
+        """`x` is the sequence the slots were computed for, or an element-wise image of it: a name whose one definition is
+        `[g(a) for a in SEQ]` / `tuple(g(a) for a in SEQ)` / `list(map(g, SEQ))` without a filter (same length, same order), so
+        that zip pairs the i-th slot with the image of the i-th element."""
+        if self._same_core(listname, x):
+            return True
+        if depth > 3 or not isinstance(x, ast.Name):
+            return False
+        bs = self.S.binds(x)
+        if len(bs) != 1 or bs[0].kind != "value" or bs[0].path or bs[0].expr is None:
+            return False
+        v = bs[0].expr
+        while isinstance(v, ast.Call) and isinstance(v.func, ast.Name) and v.func.id in ("tuple", "list") and len(v.args) == 1:
+            v = v.args[0]
+        src = None
+        if isinstance(v, (ast.ListComp, ast.GeneratorExp)) and len(v.generators) == 1 and not v.generators[0].ifs:
+            src = v.generators[0].iter
+        elif isinstance(v, ast.Call) and isinstance(v.func, ast.Name) and v.func.id == "map" and len(v.args) == 2:
+            src = v.args[1]
+        elif isinstance(v, ast.Name):
+            src = v
+        while isinstance(src, ast.Call) and isinstance(src.func, ast.Name) and src.func.id in ("tuple", "list") and len(src.args) == 1:
+            src = src.args[0]
+        return src is not None and self.same_sequence(listname, src, depth + 1)
 
     # ---- slot-typed expressions
     def slot_binder(self, e: ast.AST, depth=0):
@@ -610,13 +635,13 @@ def r1_single_slot_list(ctx, rid):
             Mj = SlotModel(ctx, callee, Sj)
             pdefs = frozenset({id(callee.node.args)})
             Mj.lists[slot_params[0]] = (kind, ast.Name(id=names_param or "<none>", ctx=ast.Load()), pdefs)
-            base_same = Mj.same_sequence
+            base_same = Mj._same_core
 
             def same_seq_j(listname, x, Mj=Mj, names_param=names_param, slot=slot_params[0]):
                 if listname == slot:
                     return names_param is not None and isinstance(x, ast.Name) and x.id == names_param and Mj.defs(x) == pdefs
                 return base_same(listname, x)
-            Mj.same_sequence = same_seq_j
+            Mj._same_core = same_seq_j
             rebound = [s2 for s2 in walk_shallow(callee.node) if isinstance(s2, (ast.Assign, ast.AugAssign, ast.For))
                        and slot_params[0] in [x.id for t in (s2.targets if isinstance(s2, ast.Assign) else [s2.target])
                                               for x in ast.walk(t) if isinstance(x, ast.Name)]]
@@ -647,6 +672,25 @@ def r1_single_slot_list(ctx, rid):
         e = S.single_value(v)
         if isinstance(e, ast.Call) and call_name(e) == "pop" and len(e.args) == 2:      # kwargs.pop('auto_parnames', <default>)
             e = S.single_value(e.args[1])
+        if isinstance(e, ast.Call) and call_name(e) == "dict" and len(e.args) == 1 and not e.keywords and isinstance(e.args[0], ast.Call) \
+                and call_name(e.args[0]) == "zip" and len(e.args[0].args) == 2:
+            # dict(zip(keys, values)): the slot list itself on one side, the (image of the) name sequence on the other
+            ks, vs = e.args[0].args
+            slot_x, other_x = (ks, vs) if slot_side == "key" else (vs, ks)
+            if isinstance(slot_x, ast.Name) and slot_x.id in M.lists and M.lists[slot_x.id][0] == "full" and M.same_sequence(slot_x.id, other_x):
+                ctx.ok(rid, gen, _stmt(e), f"`{kwname}` pairs each slot of the slot list with (the image of) its zip partner", label=label)
+            elif isinstance(slot_x, ast.Name) and slot_x.id in M.lists:
+                ctx.violation(rid, gen, _stmt(e), f"`{kwname}` zips the slot list with `{ast.unparse(other_x)}`, which is not derived "
+                                                  f"element by element from the sequence the slots were computed for", label=label)
+            elif isinstance(other_x, ast.Name) and other_x.id in M.lists:
+                ctx.violation(rid, gen, _stmt(e), f"`{kwname}` has the slot on the wrong side (`{ast.unparse(e)}`)", label=label)
+            else:
+                why = _foreign_slot_reason(S, M, slot_x) if not isinstance(slot_x, ast.Name) else (
+                    "a sequence that is not the slot list" if all(b.kind == "value" for b in S.binds(slot_x)) and S.binds(slot_x) else None)
+                if why is None:
+                    raise AnalysisError(f"{rid}: `{kwname}`: cannot determine where the tabulated slots `{ast.unparse(slot_x)}` come from")
+                ctx.violation(rid, gen, _stmt(e), f"`{kwname}` tabulates `{ast.unparse(slot_x)}` ({why}) instead of the slot list", label=label)
+            return
         if not isinstance(e, ast.DictComp):
             raise AnalysisError(f"{rid}: `{kwname}` handed to {call_name(c)} is not a dict comprehension (unrecognised form)")
         slot_e, other_e = (e.key, e.value) if slot_side == "key" else (e.value, e.key)
@@ -1118,6 +1162,44 @@ def r2_same_reordering(ctx, rid):
 # R3: states
 # =================================================================================================
 
+def _seq_or_image(S: Scope, src: ast.AST, seqname: str, depth=0) -> bool:
+    """`src` is the parameter `seqname` itself or an element-wise image of it (`[g(v) for v in seqname]`, tuple/list copies):
+    same length and order, so enumerate positions are the positions in `seqname`."""
+    while isinstance(src, ast.Call) and isinstance(src.func, ast.Name) and src.func.id in ("tuple", "list") and len(src.args) == 1:
+        src = src.args[0]
+    if not isinstance(src, ast.Name) or depth > 3:
+        return False
+    bs = S.binds(src)
+    if src.id == seqname and bs and all(b.kind == "param" for b in bs):
+        return True
+    if len(bs) != 1 or bs[0].kind != "value" or bs[0].path or bs[0].expr is None:
+        return False
+    v = bs[0].expr
+    while isinstance(v, ast.Call) and isinstance(v.func, ast.Name) and v.func.id in ("tuple", "list") and len(v.args) == 1:
+        v = v.args[0]
+    if isinstance(v, (ast.ListComp, ast.GeneratorExp)) and len(v.generators) == 1 and not v.generators[0].ifs:
+        return _seq_or_image(S, v.generators[0].iter, seqname, depth + 1)
+    if isinstance(v, ast.Call) and isinstance(v.func, ast.Name) and v.func.id == "map" and len(v.args) == 2:
+        return _seq_or_image(S, v.args[1], seqname, depth + 1)
+    if isinstance(v, ast.Name):
+        return _seq_or_image(S, v, seqname, depth + 1)
+    return False
+
+
+def _enum_start(call: ast.Call) -> Optional[int]:
+    start = 0
+    if len(call.args) > 1:
+        if not (isinstance(call.args[1], ast.Constant) and isinstance(call.args[1].value, int)):
+            return None
+        start = call.args[1].value
+    for kw in call.keywords:
+        if kw.arg == "start":
+            if not (isinstance(kw.value, ast.Constant) and isinstance(kw.value.value, int)):
+                return None
+            start = kw.value.value
+    return start
+
+
 def _enum_position(S: Scope, e: ast.AST, seqname: str):
     """If e == (enumerate position of `seqname`) + c : return (c + start, binder); else None."""
     k, off = split_offset(e)
@@ -1143,7 +1225,7 @@ def _enum_position(S: Scope, e: ast.AST, seqname: str):
     for kw in base.keywords:
         if kw.arg == "start" and isinstance(kw.value, ast.Constant):
             start = kw.value.value
-    if not (isinstance(src, ast.Name) and src.id == seqname and all(b.kind == "param" for b in S.binds(src))):
+    if not _seq_or_image(S, src, seqname):
         return ("other", ast.unparse(src), bs[0].node)
     return (c + start, bs[0].node)
 
@@ -1219,13 +1301,33 @@ def r3_states(ctx, rid):
     e = S.single_value(v)
     if isinstance(e, ast.Call) and call_name(e) == "pop" and len(e.args) == 2:
         e = S.single_value(e.args[1])
-    ctx.require(isinstance(e, ast.DictComp), f"{rid}: unames is not a dict comprehension (unrecognised form)")
-    sinks.append(("unames key", e.key, [e.value], _stmt(e), gen, S, "state_vars"))
+    if isinstance(e, ast.Call) and call_name(e) == "dict" and len(e.args) == 1 and not e.keywords and isinstance(e.args[0], ast.Call) \
+            and isinstance(e.args[0].func, ast.Name) and e.args[0].func.id == "enumerate" and e.args[0].args:
+        # dict(enumerate(names, start=1)): key = position, value = the element at that position
+        en = e.args[0]
+        start = _enum_start(en)
+        label = "state index: unames key"
+        if start is None:
+            raise AnalysisError(f"{rid}: `{ast.unparse(e)}`: start of the enumeration is not a literal")
+        if not _seq_or_image(S, en.args[0], "state_vars"):
+            src0 = en.args[0]
+            known = isinstance(src0, ast.Call) and isinstance(src0.func, ast.Name) and src0.func.id in ("sorted", "reversed", "set")
+            if not known and not (isinstance(src0, ast.Name) and S.binds(src0)):
+                raise AnalysisError(f"{rid}: unames enumerates `{ast.unparse(src0)}` (unrecognised form)")
+            ctx.violation(rid, gen, _stmt(e), f"unames key: positions are taken in `{ast.unparse(src0)}`, not in `state_vars`: "
+                                              f"NDIM/unames/stpnt would describe different state orderings", label=label)
+        elif start != 1:
+            ctx.violation(rid, gen, _stmt(e), f"unames key: positions start at {start}, Fortran/auto-07p U(k) starts at 1", label=label)
+        else:
+            ctx.ok(rid, gen, _stmt(e), "unames key: 1 + enumerate position of `state_vars`, paired with that variable", label=label)
+    else:
+        ctx.require(isinstance(e, ast.DictComp), f"{rid}: unames is not a dict comprehension (unrecognised form)")
+        sinks.append(("unames key", e.key, [e.value], _stmt(e), gen, S, "state_vars"))
     c, v = kwval("_compose_bvp_body", "state_indices")
     e = S.single_value(v)
     ctx.require(isinstance(e, ast.DictComp), f"{rid}: state_indices is not a dict comprehension (unrecognised form)")
     sinks.append(("state_indices value", e.value, [e.key], _stmt(e), gen, S, "state_vars"))
-    ctx.require(len(sinks) >= 3, f"{rid}: expected stpnt y(k), unames and state_indices sinks, found {len(sinks)}")
+    ctx.require(len(sinks) >= 2, f"{rid}: expected stpnt y(k), unames and state_indices sinks, found {len(sinks)}")
     for what, idx, vals, st, fc, Sc_, seqn in sinks:
         r = _enum_position(Sc_, idx, seqn)
         label = f"state index: {what}"
